@@ -219,6 +219,8 @@ def main(mod, argv=None):
     new_failures = {}
     known_hit = {}
     key_classes = {}        # finding_key of each failing input as generated (before shrinking) -> [count, listed?]
+    dis_idx = {d[0] for d in disagreements}
+    dis_model = {d[0]: d[1] for d in disagreements}
     for i in oracle_fail:
         def still_fails(cand, _mod=mod):
             r = _run_one_inproc(_mod, cand)
@@ -226,6 +228,22 @@ def main(mod, argv=None):
         small = cases[i]
         k = key_of(small, results[i])
         hit = next((f for f in known if f["key"] == k), None)
+        if hit is not None and i in dis_idx:
+            # ATTRIBUTION RULE (generic form of the C07 / C08 rule, session 4): a listed finding excuses a failing input only if the
+            # Lean model of the UNCHANGED code - the correspondence-checked copy of the code the finding was written about - gives
+            # the same answer on that input.  Here the model and the real code DISAGREE on this very input, so the listed finding
+            # does not explain what the real code does now: the input is reported with a key that is never listed (not shrunk: a
+            # smaller input would lose the comparison with the model).  On the unchanged tree model and code agree, so this can
+            # not raise an alarm there.
+            k = json.dumps(["differs-from-the-answer-of-the-modelled-code", k])
+            hit = None
+            key_classes.setdefault(k, [0, False])[0] += 1
+            if len(new_failures) < 8:
+                res_i = dict(results[i])
+                res_i["fail"] = (str(res_i.get("fail")) + " [the Lean model of the unchanged code answers differently on this input: "
+                                 + json.dumps(dis_model.get(i), default=str)[:300] + "; the listed finding does not explain this answer]")
+                new_failures.setdefault(k, (cases[i], res_i))
+            continue
         kc = key_classes.setdefault(k, [0, hit is not None])
         kc[0] += 1
         if hit is None and len(new_failures) < 8:
